@@ -348,10 +348,16 @@ def run(shard, ctx):
             ctx.check("bounds: objects that are not a name, a note or an integer are rejected", st == "exc", {"name": repr(bad)},
                       "exception", repr(r), mechanism="reject-object")
         # copies are independent
-        for (n, o, vel, ch) in [("C", 4, 64, 1), ("F#", 2, 0, 0), ("Bbb", 7, 127, 15), ("E", 0, 100, 9)]:
+        crng = ctx.rng("copies")
+        cnames = list(T.pure_names(3))
+        drawn = [(crng.choice(cnames), crng.randint(0, 9), crng.randint(0, 127), crng.randint(0, 15)) for _ in range(60)]
+        for ci, (n, o, vel, ch) in enumerate([("C", 4, 64, 1), ("F#", 2, 0, 0), ("Bbb", 7, 127, 15), ("E", 0, 100, 9)] + drawn):
             a = Note(n, o)
             a.set_velocity(vel), a.set_channel(ch)
-            st, b = ctx.call(Note, a)
+            if ci % 3 == 2:
+                st, b = ctx.call(lambda: Note(name=a))
+            else:
+                st, b = ctx.call(Note, a)
             ok = st == "ok" and b is not a and (b.name, b.octave, b.velocity, b.channel) == (n, o, vel, ch)
             ctx.check("copy: a copy is a distinct object with equal name, octave, channel and velocity", ok,
                       {"note": [n, o, vel, ch]}, [n, o, vel, ch], repr(b) if st != "ok" else [b.name, b.octave, b.velocity, b.channel],
